@@ -59,6 +59,22 @@ var pointFuncs = []string{
 	"internal/queue:SQLiteStore.EnqueueBatch!",
 	"internal/queue:SQLiteStore.Dequeue",
 	"internal/queue:SQLiteStore.dequeueOnce!",
+	"internal/queue:SQLiteStore.maybePrune",
+	"internal/queue:SQLiteStore.withLeaseBatch!",
+	"internal/queue:SQLiteStore.withLease!",
+	"internal/queue:SQLiteStore.Ack",
+	"internal/queue:SQLiteStore.Nack",
+	"internal/queue:SQLiteStore.Extend",
+	"internal/queue:SQLiteStore.MarkDead",
+	"internal/queue:SQLiteStore.CancelMessages",
+	"internal/queue:SQLiteStore.RequeueMessages",
+	"internal/queue:SQLiteStore.ResumeMessages",
+	"internal/queue:SQLiteStore.RequeueDead",
+	"internal/queue:SQLiteStore.DeleteDead",
+	"internal/queue:SQLiteStore.ListMessages",
+	"internal/queue:SQLiteStore.Stats",
+	"internal/queue:SQLiteStore.selectMessageIDsByFilter",
+	"internal/queue:SQLiteStore.activeDepthCount",
 }
 
 // R1 optional: instrumented when present, silently skipped when absent
